@@ -29,6 +29,30 @@ RARE = [
     'def f():\n    "doc"\ndef g():\n    "doc"\n    return\nclass A:\n    "doc"\n', 'x = 1;\n', '\n\n\n', '', '#comment only\n', 'pass\n', '...\n', '"""only a docstring"""\n',
     "x = f'{chr(0)}' + '\\x00'\n", "x = f'{\"\\x00\"}'\n", "x = f\"{'\\ud800'}\"\n", "x = f\"{b'\\xff'}\"\n",
 ]
+def removable_shapes():
+    rem = ['pass', 'assert x', 'assert x, "m"', '"doc"', '0', 'if __debug__:\n        a()', 'if __debug__ is True:\n        a()', 'assert a\n    assert b', 'pass\n    assert x\n    "s"', 'return None' ]
+    frames = ['if c:\n    %s\n', 'if c:\n    %s\nelse:\n    %s\n', 'if c:\n    x = 1\nelif d:\n    %s\nelse:\n    %s\n', 'for i in y:\n    %s\nelse:\n    %s\n', 'while c:\n    %s\nelse:\n    %s\n',
+              'with c:\n    %s\n', 'try:\n    %s\nfinally:\n    %s\n', 'try:\n    x = 1\nfinally:\n    %s\n', 'try:\n    %s\nexcept E:\n    %s\nelse:\n    %s\nfinally:\n    %s\n',
+              'try:\n    x = 1\nexcept E:\n    %s\n', 'try:\n    x = 1\nexcept* E:\n    %s\n', 'class K:\n    %s\n', 'def f():\n    %s\n', 'async def f():\n    %s\n', 'match v:\n    case 1:\n        %s\n    case _:\n        %s\n',
+              'def f():\n    for i in y:\n        %s\n    else:\n        %s\n', 'class K:\n    def m(self):\n        try:\n            x = 1\n        finally:\n            %s\n']
+    out = []
+    for fr in frames:
+        k = fr.count('%s')
+        base_ind = {}
+        for r_ in rem:
+            if r_.startswith('return') and 'def f' not in fr:
+                continue
+            # re-indent the removable statement to the depth of each hole
+            parts = fr.split('%s')
+            txt = parts[0]
+            for j in range(k):
+                indent = len(parts[j]) - len(parts[j].rstrip(' '))
+                body = r_.replace('\n    ', '\n' + ' ' * indent)
+                txt += body + parts[j + 1]
+            out.append(txt)
+    return out
+
+
 BAD = ['def (:\n', 'x = = 1\n', 'if a\n    pass\n', 'x = (1,\n', "x = 'unterminated\n", 'return\n\x00', '\tx = 1\n  y = 2\n', 'print "hello"\n', 'x = 1 +\n', 'class:\n', b'\xff\xfe\x00', 'f(**a, *b)\n', 'x = 0777\n', 'lambda: (yield\n']
 
 
@@ -94,9 +118,11 @@ def run(pid, tier):
     stats = collections.Counter()
     sets = optsets(r, 4 if eff == 'quick' else 30)
     srcs = [s for s in RARE if compiles(s)]
+    shapes = [s for s in removable_shapes() if compiles(s)]
+    srcs = srcs + shapes
     srcs += list(progs.DIRECTED) + progs.programs(r, {'quick': 120, 'search': 500}.get(eff, 3000)) + c05mod.programs(r, eff)[: 150 if eff == 'quick' else 3000]
     for i, s in enumerate(srcs):
-        use = sets if i < len(RARE) else [sets[(i + k) % len(sets)] for k in range(3)]
+        use = sets if i < len(RARE) else ([sets[1], {'remove_asserts': True}, {'remove_debug': True}, {'remove_literal_statements': True}, {'remove_pass': True, 'remove_asserts': True, 'remove_debug': True, 'remove_literal_statements': True}] if s in shapes else [sets[(i + k) % len(sets)] for k in range(3)])
         for o in use:
             check(res, s, o, stats, 'generated')
     # corpus: default options and two option sets
